@@ -17,7 +17,7 @@ def h_hist_Close : Nat := 0xff87a0a8b957f800
 def h_hist_newWriter : Nat := 0x54bfc2c9643102b8
 
 /-- hash of the normalised skeleton of ReadStatusRecent (internal/persistence/jsondb/jsondb.go) -/
-def h_hist_ReadStatusRecent : Nat := 0x26c7de324bef6bb6
+def h_hist_ReadStatusRecent : Nat := 0xe2f5b08fb63526b7
 
 /-- hash of the normalised skeleton of ReadStatusToday (internal/persistence/jsondb/jsondb.go) -/
 def h_hist_ReadStatusToday : Nat := 0xc1cc802b7b6a800c
@@ -62,7 +62,7 @@ def h_hist_prefixWithDirectory : Nat := 0x89e13c3eb6b0dec6
 def h_hist_ParseFile : Nat := 0x37b1ef6b3670135f
 
 /-- hash of the normalised skeleton of filterLatest (internal/persistence/jsondb/jsondb.go) -/
-def h_hist_filterLatest : Nat := 0xddebb069c5f72ad7
+def h_hist_filterLatest : Nat := 0x33d0a67ed13e22cb
 
 /-- hash of the normalised skeleton of timestamp (internal/persistence/jsondb/jsondb.go) -/
 def h_hist_timestamp : Nat := 0x9105fb0aacf4df75
